@@ -223,22 +223,29 @@ def identity (seqs : List (List Nat)) (t : Trace) (mode : IdMode) : Except Err (
 def pairMatches (r1 r2 : List (Option Nat)) : Nat :=
   ((r1.zip r2).filter fun (a, b) => a.isSome && a == b).length
 
+/-- length entry `(i, j)` of `get_pairwise_sequence_identity` -/
+def pairLen (seqs : List (List Nat)) (t : Trace) (mode : IdMode) (i j : Nat) : Except Err Nat :=
+  match mode with
+  | .all => .ok t.length
+  | .notTerminal =>
+    match selectSeqs t [i, j] with
+    | .error e => .error e
+    | .ok sub => match findTerminalGaps 2 sub with
+      | .error e => .error e
+      | .ok (a, b) => if b ≤ a then .error .valueError else .ok (b - a)
+  | .shortest => .ok (Nat.min (seqs.getD i []).length (seqs.getD j []).length)
+
 /-- `get_pairwise_sequence_identity`: matrix of `(matches, length)`; lengths of zero give nan/inf in numpy
 and are printed as such by the driver. -/
 def pairIdentity (seqs : List (List Nat)) (t : Trace) (mode : IdMode) :
-    Except Err (List (List (Nat × Nat))) := do
-  let codes ← getCodes seqs t
-  let n := codes.length
-  (List.range n).mapM fun i => (List.range n).mapM fun j => do
-    let m := pairMatches (codes.getD i []) (codes.getD j [])
-    let len ← match mode with
-      | .all => pure t.length
-      | .notTerminal => do
-        let sub ← selectSeqs t [i, j]
-        let (a, b) ← findTerminalGaps 2 sub
-        if b ≤ a then .error .valueError else pure (b - a)
-      | .shortest => pure (Nat.min (seqs.getD i []).length (seqs.getD j []).length)
-    pure (m, len)
+    Except Err (List (List (Nat × Nat))) :=
+  match getCodes seqs t with
+  | .error e => .error e
+  | .ok codes =>
+    mapE (fun i => mapE (fun j => match pairLen seqs t mode i j with
+      | .error e => .error e
+      | .ok len => .ok (pairMatches (codes.getD i []) (codes.getD j []), len)) (List.range codes.length))
+      (List.range codes.length)
 
 /-- similarity part of `score`: every unordered pair of non-gap codes in a column. -/
 def colPairScore (M : List (List Int)) : List (Option Nat) → Except Err Int
